@@ -179,9 +179,11 @@ def run(ctx, eng):
                lambda o: o.rule == 'COH.apply-map' and o.desc.startswith(
                    'local MAX_HEADER_LIST_SIZE ') or
                (o.rule == 'FLOW.ack-source' and
-                o.where.endswith('_local_settings_acked')),
+                o.where.endswith('_local_settings_acked')) or
+               o.rule == 'FLOW.queue',
                'the acknowledged MAX_HEADER_LIST_SIZE reaches the decoder '
-               'whatever else the same frame changed')
+               'whatever else the same frame changed - the acknowledged one, '
+               'not a later value still in flight')
     cm.include(ctx, eng, 'C21', {'OWN.buffer'},
                'the receive buffer holds at most the bytes of the frame in '
                'progress: every frame handed out is removed from it')
@@ -231,6 +233,16 @@ def check_backlog(ctx, eng):
                                      backlog) not in after:
                         bad.append('a CONTINUATION is buffered without the '
                                    'backlog check')
+        elif p.exit in ('return', 'fall') and aps:
+            # the frame that ends the block is buffered and counted like
+            # every other one: the cap is on the block, END_HEADERS or not
+            i = p.index(aps[0])
+            pre = [e for e in p.events[:i] if e.kind == 'assume']
+            if any(cm.show0(e.cond) == 'self._headers_buffer' for e in pre) \
+                    and cm.mk_aff_key('>=', {'len(self._headers_buffer)': -1},
+                                      backlog) not in cm.assume_keys(p):
+                bad.append('the CONTINUATION that ends a block is buffered '
+                           'without the backlog check')
     ctx.ob('ARITH.backlog', f5.qual, 'every buffered frame is counted',
            swallowed >= 2 and guard and not bad,
            '; '.join(sorted(set(bad))) or 'ProtocolError once more than '
